@@ -221,6 +221,25 @@ def run(ck: Checker):
 
     with ck.as_rule('C14-8', 'exception transport: the RemoteException obligations C15-1..5, on which "carries the server-side traceback" rests', minimum=5):
         c15.run(ck)
+    # ------------------------------------------------------------------ C14-15
+    ck.rule('C14-15', 'a proxy offers the public methods of ITS hosted object: a cache of generated proxy types is keyed by the exposed method names as well as by the type id — two hosted objects that share a type id (a registered factory that returns different classes) but differ in their methods must not share a proxy type')
+    ap = mod.func('AutoProxy')
+    probs15, n15 = [], 0
+    for fn15 in [ap] + [f_ for q_, f_ in mod.functions.items() if q_.startswith('AutoProxy.')]:
+        ps15 = {a.arg for a in fn15.node.args.args + fn15.node.args.kwonlyargs}
+        if 'exposed' not in ps15:
+            continue
+        # locals derived from `exposed`
+        derived = {'exposed'}
+        for st in ast.walk(fn15.node):
+            if isinstance(st, ast.Assign) and any(isinstance(x, ast.Name) and x.id in derived for x in ast.walk(st.value)):
+                derived |= {t.id for t in st.targets if isinstance(t, ast.Name)}
+        for sub in ast.walk(fn15.node):
+            if isinstance(sub, ast.Subscript) and isinstance(sub.value, ast.Name) and 'cache' in sub.value.id.lower():
+                n15 += 1
+                if not any(isinstance(x, ast.Name) and x.id in derived for x in ast.walk(sub.slice)):
+                    probs15.append(f'L{sub.lineno}: `{norm_text(sub)[:50]}` — the cache of generated proxy types is keyed without the exposed methods: the second object of a type id gets the methods of the first one seen in this process')
+    ck.ob('C14-15', ap, (ap.node.lineno, 'proxy type cache'), not probs15, '; '.join(sorted(set(probs15))[:2]) if probs15 else (f'{n15} use(s) of the proxy type cache, each keyed by the exposed methods' if n15 else 'generated proxy types are not cached'))
     # ------------------------------------------------------------------ C14-14
     ck.rule('C14-14', 'the exception of the hosted method is what the caller gets: after the handler has built the #ERROR message nothing else is decided for this call — no later step reads the (unassigned) result or replaces the message (a mapped method that raises would surface as a library UnboundLocalError) (EXITS)', minimum=1)
     cmf = ck.repo.func(SERVERPROC, 'Server._callmethod')
